@@ -158,6 +158,8 @@ static bool set_glob_attr(const char *k, const char *v) {
         n = parse_blob(v, &p); if (n < 0) return false;
         free(vp_glob.icon); vp_glob.icon = p; vp_glob.icon_len = (size_t)n; vp_glob.icon_present = 1; return true;
     }
+    if (!strcmp(k, "failsize")) { if (!parse_i64(v, &i) || i < 0 || i > 1000000) return false; vp_glob.fail_size = (size_t)i; return true; }
+    if (!strcmp(k, "memcmprep")) { vp_glob.memcmp_wide = !strcmp(v, "wide"); return !strcmp(v, "wide") || !strcmp(v, "byte"); }
     if (!strcmp(k, "sendok")) { vp_glob.send_len = !strcmp(v, "len"); return !strcmp(v, "len") || !strcmp(v, "zero"); }
     if (!strcmp(k, "mtuclobber")) { if (!parse_i64(v, &i) || i < 0 || i > 65535) return false; vp_glob.mtu_clobber = (size_t)i; return true; }
     if (!strcmp(k, "failrc")) { if (!parse_i64(v, &i) || i == 0 || i < -1000 || i > 1000) return false; vp_glob.failrc = (int)i; return true; }
@@ -258,19 +260,20 @@ static void run_line(char *line) {
         if (!creating && !it->used) { bad(); goto end; }
         if (creating && it->used) { bad(); goto end; }   /* an interface context lives for the whole run */
         vp_iface tmp = *it;
-        unsigned buf0 = 0;
+        unsigned buf0 = 0; size_t align = 0;
         if (creating) { memset(&tmp, 0, sizeof(tmp)); tmp.index = I; tmp.mtu = 1500; }
         bool ok = true;
         for (int i = 2; i < nt && ok; i++) {
             char *eq = strchr(tok[i], '='); if (!eq) { ok = false; break; }
             *eq = 0;
             if (!strcmp(tok[i], "buf0")) { uint64_t u; ok = creating && parse_u64(eq + 1, &u) && u <= 255; buf0 = (unsigned)u; }
+            else if (!strcmp(tok[i], "align")) { ok = creating && (!strcmp(eq + 1, "0") || !strcmp(eq + 1, "2")); align = eq[1] == '2' ? 2 : 0; }
             else ok = set_iface_attr(&tmp, tok[i], eq + 1, creating);
         }
         if (!ok) { bad(); goto end; }
         if (creating) {
             tmp.used = 1;
-            tmp.recvbuf = malloc(tmp.mtu);            /* exactly MTU bytes, like fillInterfaceDetails */
+            tmp.recvbuf = (uint8_t *)malloc(tmp.mtu + align) + align;     /* exactly MTU bytes, like fillInterfaceDetails; `align=2`: 2 bytes past a word boundary (NET_IP_ALIGN-style) */
             tmp.bufsize = tmp.mtu;
             memset(tmp.recvbuf, (int)buf0, tmp.mtu);
         }
@@ -446,6 +449,17 @@ static void run_line(char *line) {
             if (nt != 6 || !parse_fixed(tok[3], mac, 6) || !parse_u64(tok[4], &gen) || gen > 65535 || !parse_u64(tok[5], &seq) || seq > 65535) { bad(); goto end; }
             session_entry *e = session_table_add(g_tbl[T], mac, (uint16_t)gen, (uint16_t)seq);
             fprintf(vp_out, "ret %d\n", e ? (int)(e - g_tbl[T]->entries) : -1);
+        } else if (!strcmp(tok[1], "readd")) {
+            /* tbl readd T mac gen gen2 seq: remove the session found and add it again under gen2, the key being the address bytes INSIDE the entry */
+            uint64_t gen2 = 0;
+            if (nt != 7 || !parse_fixed(tok[3], mac, 6) || !parse_u64(tok[4], &gen) || gen > 65535 || !parse_u64(tok[5], &gen2) || gen2 > 65535 || !parse_u64(tok[6], &seq) || seq > 65535) { bad(); goto end; }
+            session_entry *e = session_table_find(g_tbl[T], mac, (uint16_t)gen, 0);
+            if (!e) fprintf(vp_out, "ret -1\n");
+            else {
+                session_table_remove(g_tbl[T], e->mapper_mac, e->generation);
+                session_entry *n = session_table_add(g_tbl[T], e->mapper_mac, (uint16_t)gen2, (uint16_t)seq);
+                fprintf(vp_out, "ret %d\n", n ? (int)(n - g_tbl[T]->entries) : -1);
+            }
         } else if (!strcmp(tok[1], "find")) {
             if (nt != 5 || !parse_fixed(tok[3], mac, 6) || !parse_u64(tok[4], &gen) || gen > 65535) { bad(); goto end; }
             session_entry *e = session_table_find(g_tbl[T], mac, (uint16_t)gen, 0);
@@ -496,13 +510,17 @@ static void run_line(char *line) {
     } else if (!strcmp(op, "ev")) {
         /* ev I HEX avail=N tbl=T|- : classifier on an exact-size heap image (ASan sees any read past avail) */
         int I = nt >= 2 ? parse_idx(tok[1], VP_MAX_IFACE) : -1;
+        /* optional 6th token `off=2`: the image starts 2 bytes past a word boundary (NET_IP_ALIGN-style receive buffers; the protocol structs are packed to 2) */
+        size_t evoff = 0;
+        if (nt == 6) { if (strcmp(tok[5], "off=2") && strcmp(tok[5], "off=0")) { bad(); goto end; } evoff = tok[5][4] == '2' ? 2 : 0; nt = 5; }
         if (I < 0 || !vp_ifaces[I].used || nt != 5 || strncmp(tok[3], "avail=", 6) || strncmp(tok[4], "tbl=", 4)) { bad(); goto end; }
         uint64_t avail; if (!parse_u64(tok[3] + 6, &avail) || avail > 65535) { bad(); goto end; }
         int T = !strcmp(tok[4] + 4, "-") ? -2 : parse_idx(tok[4] + 4, MAXOBJ);
         if (T == -1 || (T >= 0 && !g_tbl[T])) { bad(); goto end; }
         uint8_t *f; long n = parse_hex(tok[2], &f);
         if (n < 0 || (uint64_t)n > avail) { free(f); bad(); goto end; }
-        uint8_t *img = malloc(avail ? avail : 1);
+        uint8_t *img0 = malloc((avail ? avail : 1) + evoff);
+        uint8_t *img = img0 + evoff;
         memset(img, vp_poison, avail ? avail : 1);
         memcpy(img, f, (size_t)n); free(f);
 #ifdef DSE_OLD_SIG
@@ -510,7 +528,7 @@ static void run_line(char *line) {
 #else
         int ev = derive_session_event(img, (size_t)avail, T >= 0 ? g_tbl[T] : NULL, vp_ifaces[I].mac);
 #endif
-        free(img);
+        free(img0);
         fprintf(vp_out, "event %d\n", ev);
 #ifdef WITH_ESP32
     } else if (!strcmp(op, "espinit")) {
